@@ -107,7 +107,22 @@ def aspect(prop, trace):
     if prop == "C03":
         return route_class(evs) + " tpl=" + ",".join(sorted(set(tpl_seen(evs))))
     if prop == "C05":
-        return " ".join(find(evs, "P:"))
+        ps = find(evs, "P:")
+        if not ps:
+            return ""
+        m = re.search(r"Path\[[^\]]*\]", ps[0])
+        if m:
+            return m.group(0)
+        return ps[0] if "err(path" in ps[0] or "wrong-path" in ps[0] else "no-path-part"
+    if prop == "C04":
+        ps = find(evs, "P:")
+        if not ps:
+            return ""
+        if ps[0].startswith("P:err("):
+            return ps[0] if ("err(query" in ps[0] or "err(header" in ps[0]) else "non-qh-error"
+        q = re.search(r"Query\[[^\]]*\]", ps[0])
+        h = re.search(r"Headers\[[^\]]*\]", ps[0])
+        return (q.group(0) if q else "") + " " + (h.group(0) if h else "")
     if prop == "C16":
         return " ".join(e if not e.startswith(("A:", "H:", "C:", "P:")) else e[0] for e in evs if not e.startswith("S:"))
     if prop == "C11":
@@ -126,7 +141,7 @@ def ref_ok(prop, r):
     """does the implementation's observation satisfy the reference verdict for this property?"""
     evs = events(r.impl)
     cfg = case_cfg(r)
-    route, auth, params = (r.ref.split("|") + ["-", "-"])[:3]
+    route, auth, params, qh, sec = (r.ref.split("|") + ["-", "-", "-", "sec[]"])[:5]
     rc = route_class(evs)
     if prop == "C03":
         if route == "spec":
@@ -158,6 +173,35 @@ def ref_ok(prop, r):
             return False
         faults = params[4:-1].split(",")
         return (m.group(1) + ":" + m.group(2)) in faults
+    if prop == "C04":
+        if not route.startswith("op(") or auth == "401" or not cfg["parse"]:
+            return True
+        p = find(evs, "P:")
+        if not p:
+            return False
+        got = p[0][2:]
+        if qh.startswith("ok"):
+            if got.startswith("err("):
+                # a path-parameter fault may legitimately fail the parse (C05's matter); so may a
+                # fault on a header read by the operation's own security scheme
+                ms = re.match(r"err\(header,([0-9a-f]*),(multiple|required)\)", got)
+                if ms and ms.group(1) in sec[4:-1].split(","):
+                    return True
+                return got.startswith("err(path") or got == "err(wrong-path)"
+            rq = re.search(r"Query\[([^\]]*)\]", qh).group(1)
+            rh = re.search(r"Headers\[([^\]]*)\]", qh).group(1)
+            gq = re.search(r"Query\[([^\]]*)\]", got)
+            gh = re.search(r"Headers\[([^\]]*)\]", got)
+            gqs = gq.group(1) if gq else ""
+            ghs = gh.group(1) if gh else ""
+            # declared header parameters come first; security-derived header fields may follow
+            return gqs == rq and (ghs == rh or ghs.startswith(rh + ",") or (rh == "" ))
+        m = re.match(r"err\((query|header),([0-9a-f]*),(\w+)\)", got)
+        if not m:
+            return False
+        if m.group(1) == "header" and m.group(2) in sec[4:-1].split(",") and m.group(3) in ("multiple", "required"):
+            return True
+        return "%s:%s:%s" % (m.group(1), m.group(2), m.group(3)) in qh[4:-1].split(",")
     if prop == "C16":
         ms = [e for e in evs if re.match(r"M\d+[<>]", e)]
         if not route.startswith("op("):
@@ -211,10 +255,10 @@ def ref_ok(prop, r):
 
 KF_OF_PROP = {
     "C03": set(),
-    "C17": set(),
+    "C17": {"KF-C11-arity"},
     "C11": {"KF-C11-arity", "KF-C11-unsupported"},
     "C16": set(),
-    "C05": set(), "C13": set(), "C14": set(),
+    "C05": set(), "C13": set(), "C14": set(), "C04": set(),
 }
 
 
